@@ -385,9 +385,9 @@ def plan(rng, tier_, ctx):
     q = tier_ == "quick"
     precs = [30, 53, 100] if q else [30, 53, 100, 200, 300]
     jobs = []
-    for i in range(60 if q else 300):
+    for i in range(50 if q else 300):
         jobs.append((g_finite(rng), "default", rng.choice(precs + [24, 113])))
-    for i in range(110 if q else 500):
+    for i in range(90 if q else 500):
         spec = g_series(rng)
         ms = methods_for(ctx, spec)
         m = rng.choice(ms)
@@ -464,7 +464,7 @@ def run(rep, tier_, rng):
     for c in calls.values():
         regimes[c["regime"]] = regimes.get(c["regime"], 0) + 1
     run_and_report(rep, insts, calls, tag="C27_%s" % tier_, params={"sentence_timeout": 60, "single_timeout": 80},
-                   budget=max(30, (135 if q else 1100) - tgen),
+                   budget=max(30, (115 if q else 1100) - tgen), jobs=10,
                    rule="each evaluation = one call of nsum/nprod/limit/sumem/sumap of the current /repo code: finite ranges (rational "
                         "summands 1/(k^2+ak+b), (k+a)/(k^2+b), polynomials, c r^k, (-1)^k/(k+a), k^m r^k; products; 2-d finite sums) against "
                         "the exact rational value (Z lemma); infinite series geometric / k^m r^k / zeta(2), zeta(4) and tails / telescoping / "
